@@ -81,6 +81,9 @@ type Case struct {
 	// taken in the destination by OTHER content
 	Clash    []int `json:"clash,omitempty"`
 	UseMount bool  `json:"useMount,omitempty"`
+	// MountErrRepo: mount requests naming this repository as source are answered
+	// with a server error during the faulty attempt (a hard mount failure)
+	MountErrRepo string `json:"mountErrRepo,omitempty"`
 	// NoOnMounted: MountFrom is set but OnMounted is left nil
 	NoOnMounted bool        `json:"noOnMounted,omitempty"`
 	MountFrom   []MountSpec `json:"mountFrom,omitempty"`
